@@ -2,7 +2,7 @@
 From Coq Require Import List String Ascii ZArith. Import ListNotations.
 From Coq Require Import List Bool.
 From SV Require Import Lib.Str Model.Types Model.Naming Model.Api Model.Back Proofs.GenProofs.
-From SV Require Import Model.FrontSmall Model.View Model.Front Proofs.WalkProofs Proofs.AttrProofs Proofs.WalkerTableProofs Proofs.ModuleProofs Model.Run Proofs.RunMoreProofs.
+From SV Require Import Model.FrontSmall Model.View Model.Front Proofs.WalkProofs Proofs.AttrProofs Proofs.WalkerTableProofs Proofs.ModuleProofs Model.Run Proofs.RunMoreProofs Proofs.ClassMarkerProofs.
 
 (* the attribute block contains one entry per public attribute (type-variable attributes excepted), no more *)
 Theorem C03_class_attributes_once : forall classes rmap nc ats inner acc names s r s',
@@ -83,6 +83,11 @@ Theorem C03_run_attribute_names_unique : forall v nc fs0 out, run v nc fs0 = Ok 
   Forall (fun m => Forall cls_ok (m_classes m)) (api_modules (out_api out)) /\
   Forall (fun kv : str * cls => cls_ok (snd kv)) (api_classes (out_api out)).
 Proof. exact run_attribute_names_unique. Qed.
+(* a method is rendered in place (never moved to the stub of a re-exporting package: the branch that moves a declaration
+   returns the empty text and is open to module-level functions and classes only) *)
+Theorem C03_method_is_rendered_in_place : forall classes rmap nc f indent rx s x s',
+  function_string classes rmap nc f indent true rx s = Ok (x, s') -> g_todos s = [] -> x <> [].
+Proof. exact method_is_rendered_in_place. Qed.
 Print Assumptions C03_class_attributes_once.
 Print Assumptions C03_class_methods.
 Print Assumptions C03_front_module_inventory.
@@ -95,3 +100,4 @@ Print Assumptions C03_enum_child_is_the_source_set.
 Print Assumptions C03_enum_test_is_the_source_test.
 Print Assumptions C03_module_stub_inventory.
 Print Assumptions C03_run_attribute_names_unique.
+Print Assumptions C03_method_is_rendered_in_place.
